@@ -811,6 +811,13 @@ class Exec:
                 fi = lambda x, y: z3.IntVal(1) if k == 0 else _prod([x] * k)
                 fr = lambda x, y: z3.RealVal(1) if k == 0 else _prod([x] * k)
                 return [(s2, self.num_result(a, b, fi, fr))]
+            if not self.spec and self.known(s2, z3.And(Z.is_intlike(b), Z.ival(b) >= 0, Z.ival(b) <= 4)):
+                # a small exponent fixed by the path condition (e.g. len(xs) - 1 in a split case): unfold the product
+                for k in range(5):
+                    if self.known(s2, Z.ival(b) == k):
+                        fi = lambda x, y, k=k: z3.IntVal(1) if k == 0 else _prod([x] * k)
+                        fr = lambda x, y, k=k: z3.RealVal(1) if k == 0 else _prod([x] * k)
+                        return [(s2, self.num_result(a, Z.mk_i(z3.IntVal(k)), fi, fr))]
             if self.known(s2, z3.And(Z.is_intlike(b), Z.ival(b) >= 0)):
                 # integer exponent >= 0: the recursively defined real power (facts come from proved lemmas)
                 t = Z.PW(Z.num(a), Z.ival(b))
